@@ -180,6 +180,26 @@ def gen(ctx, todo_cells):
     for st, pre in prefixes.items():
         for n in ((1, 64, 65, 200) if quick else (1, 2, 63, 64, 65, 66, 128, 129, 200, 1000)):
             out.append({'delay': 0, 'hold': 90, 'ap': '1.1,2.1', 'pre': pre, 'steps': [('U:%d:%s' % (n, UPDATE.hex()), 'burst', n)], 'from': st})
+    # 3c. the second time round: the session is established, loses its connection, is started again and gets a new socket
+    #     (Session::attach_stream) on which the peer negotiates something else; an UPDATE in the encoding of the *new* negotiation
+    #     (with / without path identifiers) is then delivered like any other
+    upd_plain = hdr(23 + 4, 2) + b'\x00\x00\x00\x00' + b'\x18\x0a\x00\x01'
+    upd_pid = hdr(23 + 8, 2) + b'\x00\x00\x00\x00' + b'\x00\x00\x00\x07\x18\x0a\x00\x01'
+    ap_open = open_msg(65001, 30, [(65, struct.pack('>I', 65001)), (69, struct.pack('>HBB', 1, 1, 3))])
+    no_ap_open = open_msg(65001, 30, [(65, struct.pack('>I', 65001))])
+    for first, second, upd in ((ap_open, no_ap_open, upd_plain), (no_ap_open, ap_open, upd_pid), (ap_open, ap_open, upd_pid), (no_ap_open, no_ap_open, upd_plain)):
+        for lost in (['e:TcpConnectionFails'], ['e:ManualStop']):
+            # (through handle_msg only: the octets the `A` step wrote to make the new socket readable are still in it, a tick()
+            # would read that OPEN a second time)
+            for via in ('m',):
+                steps = [('e:ManualStartWithPassiveTcpEstablishment', 'ManualStartWithPassiveTcpEstablishment', None),
+                         ('e:TcpConnectionConfirmed', 'TcpConnectionConfirmed', None), ('m:' + first.hex(), 'msg:open', 'ok'),
+                         ('m:' + KEEPALIVE.hex(), 'msg:keepalive', None)]
+                steps += [(x, x[2:], None) for x in lost]
+                steps += [('e:ManualStartWithPassiveTcpEstablishment', 'ManualStartWithPassiveTcpEstablishment', None),
+                          ('A:' + second.hex(), 'TcpConnectionConfirmed', None), ('m:' + second.hex(), 'msg:open', 'ok'),
+                          ('m:' + KEEPALIVE.hex(), 'msg:keepalive', None), ('%s:%s' % (via, upd.hex()), 'msg:update', None)]
+                out.append({'delay': 0, 'hold': 90, 'ap': '1.1,2.1', 'steps': steps})
     # 4. long random histories
     for _ in range(150 if quick else 5000):
         steps = []
